@@ -36,6 +36,11 @@ Expect  == Meaning(f, par)
 \* the property on the model: the operational parser yields exactly the declared meaning
 ParseIsMeaning == ObsCmp(Parsed, par) = ObsCmp(Expect, par)
 
+\* framing: with or without the final newline the same lines reach the line step (the replay reads every
+\* exported file in both framings and expects the same observation)
+Framing == LET ls == Render(f) IN
+           (ls # <<>> /\ ls[Len(ls)] # <<>>) => \A fnl \in BOOLEAN : LinesOfBytes(FileBytes(ls, fnl)) = ls
+
 Case == [delim |-> par.delim, comment |-> par.comment, python |-> par.python, join |-> par.join, lines |-> Render(f),
          kinds |-> [i \in 1..Len(f) |-> f[i].t], exp |-> Expect, cbx |-> CbExact(f, par)]
 ExportCase == (Export /\ f # <<>> /\ (WithBad => NBad(f) = 1)) => PrintT(ToJson(Case))
